@@ -55,6 +55,13 @@ def slice_impl(ctx, rule, F, cfg):
                 ok = v[0] == "bin" and v[1] == "Add" and strip_wrappers(v[2]) == strip_wrappers(pos[0][2])
                 amount = addends(v[3]) if ok else None
                 eof = rv[:1] == ("Err",) or "UpToEof" in rv
+                if slf and ok:
+                    # the amount must be computed from the slice as it was on entry: a call that reads `self` after
+                    # `*self` was overwritten measures the remainder, not what was consumed
+                    first_store = min(i for i, e in enumerate(p) if e is slf[0])
+                    late = [c for i, c in enumerate(p) if i > first_store and c[0] == "call" and any(has_subterm(a, lambda s2: s2[0] == "arg" and s2[2] == "self") for a in c[3])
+                            and has_subterm(v[3], lambda s2: s2[0] == "call" and s2[1] == c[1] and s2[2] == c[2])]
+                    ctx.ob(rule, site + ":measured-before-cut", not late, "the amount added to the position is computed from the slice before it is cut (calls on the already-cut slice: %s)" % [sym.short(c[2]) for c in late], loc=b.loc(pos[0][4]), config=cfg)
                 if slf:
                     newv = slf[-1][3]
                     cut = None
